@@ -189,6 +189,29 @@ func runUnit(res *common.Result) {
 		}
 		return items
 	}
+	// two OVERLAPPING Scheduler.Cancel calls (a user interrupt arriving while another one is being served), and the
+	// scheduler's own cancellation (a condition that cannot be evaluated) overlapping a user interrupt
+	overlapCancels := func(extra int) []item {
+		var items []item
+		for _, sh := range []struct {
+			deps  [][]string
+			bound int
+		}{{[][]string{{}}, 0}, {[][]string{{}, {}}, 0}, {[][]string{{}, {"p"}}, 0}} {
+			sc := pipe(sh.deps, 1)
+			sc.Cancellers, sc.ViaSched = 2, true
+			if len(sh.deps) == 2 && len(sh.deps[1]) == 0 && extra == 0 {
+				// two parallel stages under two cancellers: 1.2 million executions at bound 0 - thorough tier only
+			} else {
+				items = append(items, item{sc, sh.bound + extra})
+			}
+			if len(sh.deps) == 2 {
+				sc = pipe(sh.deps, 1)
+				sc.CondErr, sc.Cancellers, sc.ViaSched = names[1], 1, true
+				items = append(items, item{sc, sh.bound + extra})
+			}
+		}
+		return items
+	}
 	sameObjSched := func(n, bound int) []item {
 		var items []item
 		for _, it := range schedItems([][][]string{make([][]string, n)}, 1, bound) {
@@ -226,6 +249,7 @@ func runUnit(res *common.Result) {
 		items := schedItems([][][]string{{{}}}, 2, 1)
 		items = append(items, schedItems([][][]string{{{}, {}}, {{}, {"p"}}, {{}, {"p"}, {"p"}}, {{}, {}, {"p", "q"}}, {{}, {"p"}, {"q"}}}, 1, 0)...)
 		items = append(items, sameObjSched(2, 0)...) // two parallel stages that refer to ONE task object
+		items = append(items, overlapCancels(0)...)
 		runItems(items)
 	case "cancel-t": // thorough
 		runItems([]item{
@@ -240,6 +264,7 @@ func runUnit(res *common.Result) {
 		items = append(items, schedItems([][][]string{{{}, {}, {}, {"p"}}, {{}, {"p"}, {"q"}, {"r"}}, {{}, {}, {}, {}}}, 1, 0)...)
 		items = append(items, sameObjSched(2, 1)...)
 		items = append(items, sameObjSched(3, 0)...)
+		items = append(items, overlapCancels(1)...)
 		runItems(items)
 	case "cancel-n1-b2":
 		cancelDirect(1, 2)
